@@ -75,7 +75,7 @@ theorem rpm_sign_then_verify_partial (H : Nat â†’ Bytes â†’ Bytes) (mk : Bool â†
   have hd' : digestPayload H sig'.ents p.gen p.payload = .ok () := by
     rw [digestPayload_congr H _ _ _ _ g5]; exact hd
   have hk' : kid âˆˆ ks := by simpa using hk
-  unfold verifyCore libVerifyCore
+  unfold verifyCore verifyCoreWith libVerifyCore
   simp [collect, g1, g2, g3, g4, hp, hd', validateAll, hk', hv, hn, dedupe]
 
 /-- the hypotheses are satisfiable: a transparent scheme (the "packet" is the stream itself) -/
